@@ -81,6 +81,8 @@ pub struct CloneOpts {
     pub verify_output: bool,
     pub faults: Vec<WriteFault>,
     pub out_cap: Option<u64>,
+    /// the output accepts at most this many bytes per write call (0 = unlimited)
+    pub max_write: usize,
 }
 
 pub struct CloneReport {
@@ -209,6 +211,7 @@ where
     if let Some(c) = opts.out_cap {
         out.cap = c;
     }
+    out.max_write = opts.max_write;
     if opts.block_dev {
         let size = out.data.len() as u64;
         if size < archive.total_source_size() {
